@@ -154,7 +154,6 @@ Outcome RunC20(RunCtx& ctx)
 		ZooGenCfg zg;
 		zg.archive = sc.archive;
 		zg.maxLen = 4;
-		zg.allowEmpty = sc.archive != A_XML;     // KF-XML-EMPTY-CONTAINER (owned by C01)
 		GenZoo(s, sim::L_DOC, sc.zooValue, zg);
 		if (sc.archive == A_CSV && sc.zooValue.rows.empty()) sc.zooValue.rows.emplace_back();
 	}
@@ -165,7 +164,7 @@ Outcome RunC20(RunCtx& ctx)
 		g.maxStr = 60;
 		g.maxNodes = 24;
 		g.allowIntKeys = sc.archive == A_MSGPACK;
-		if (sc.archive == A_XML || sc.archive == A_CSV) g.allowEmptyContainers = false;
+		if (sc.archive == A_CSV) g.allowEmptyContainers = false;
 		if (sc.archive == A_JSON) g.simpleFloats = true;
 		g.forceContainerRoot = true;
 		sc.doc = GenDocument(s, sim::L_DOC, g);
